@@ -38,6 +38,9 @@ type Node struct {
 	W int
 	// for ints: prefer the unsigned family when the value is non-negative
 	Unsigned bool
+	// X: the value is handed to the library as an unusual Go type (records in the packed suite only):
+	// "p" net.IP, "j" json.RawMessage (named byte slices), "d" time.Duration, "m" map[string]int{"a": I}
+	X string
 }
 
 func nNil() *Node            { return &Node{K: KNil} }
